@@ -836,6 +836,10 @@ pub fn judge(case: &Case) -> Verdict {
         for k in 0..(r.pipes as u64).min(6) {
             plans.push(vec![Fault::Pipe { at: k, err: ErrKind::Emfile }]);
         }
+        // reads of sourced files (the script source itself is read before any trap exists)
+        for k in 1..r.file_reads.min(6) {
+            plans.push(vec![Fault::FileRead { at: k, err: ErrKind::Eio }]);
+        }
         if case.front_end == FrontEnd::Stdin {
             for k in 0..r.stdin_reads.min(10) {
                 plans.push(vec![Fault::StdinEintr { at: k }]);
